@@ -9,7 +9,7 @@ from common import proof_status, repo_import
 from proto import run_lines
 
 MATCHERS = {}
-FAULTS = ["non_utf8", "directory", "dangling_link", "unserialisable", "empty"]
+FAULTS = ["non_utf8", "directory", "dangling_link", "unserialisable", "unserialisable_top", "empty"]
 
 
 def make_tree(rng):
@@ -42,6 +42,10 @@ def make_tree(rng):
         elif kind == "unserialisable":
             # a :root block is always re-serialised, so the parse error always surfaces
             files[nme] = b":root { *zoom: 1; --x: #777 }\n.y { color: #888 }"
+        elif kind == "unserialisable_top":
+            # a parse error at the top level: only the final serialisation of the whole stylesheet meets it
+            files[nme] = rng.choice([b".y { color: #888 } trailing", b".a { color: #777 }\n@media print { .p { color: #999 } } } trailing",
+                                     b"trailing-only"])
         else:
             files[nme] = b""
     if rng.random() < 0.5:
@@ -58,7 +62,7 @@ def check(run):
     n = 45 if q else 1200
     run.rule = ("directory trees of 2-4 generated stylesheets in nested folders (incl. a hidden folder and multi-dot names), a "
                 "custom property defined in one file and used in another, 0-3 faults placed at random (non-UTF-8 bytes, a "
-                "directory named *.css, a dangling link named *.css, unserialisable CSS, an empty file), stale *_cm.css files, "
+                "directory named *.css, a dangling link named *.css, CSS that cannot be serialised inside a :root block or at the top level, an empty file), stale *_cm.css files, "
                 "non-.css files; each tree is run as a directory twice in a row, and every good file alone; x settings. "
                 "distinct = distinct trees; non-trivial = the tree contains at least one fault or a shared custom property")
     jobs, metas = [], []
@@ -122,7 +126,7 @@ def check(run):
         for k, kind in faults.items():
             kk = "t/" + k
             outk = kk[:-4] + "_cm.css"
-            if kind in ("non_utf8", "directory", "dangling_link", "unserialisable"):
+            if kind in ("non_utf8", "directory", "dangling_link", "unserialisable", "unserialisable_top"):
                 if "Error processing" not in r1["stderr"] or k.rsplit("/", 1)[-1] not in r1["stderr"]:
                     run.violation("a bad file was not reported on stderr", case, details={"file": k, "kind": kind, "stderr": r1["stderr"][-400:]})
                 if outk in r1["after"] and outk not in tree:
@@ -138,7 +142,10 @@ def check(run):
                                            "alone": None if b is None else b[1].decode("utf-8", "replace")[:300]})
         # outputs are never re-consumed: the second run reproduces the first
         outs1 = {k: v for k, v in r1["after"].items() if k not in r1["before"]}
-        outs2 = {k: v for k, v in r2["after"].items() if k.endswith("_cm.css") and k not in tree}
+        outs2 = {k: v for k, v in r2["after"].items() if k not in tree and k not in r1["before"]}
+        stray = sorted(k for k in outs1 if not (k.endswith("_cm.css") and k[:-7] + ".css" in tree))
+        if stray:
+            run.violation("a directory run left something that is not the _cm.css sibling of one of its inputs", case, details={"left": stray})
         if any(k.endswith("_cm_cm.css") for k in r2["after"]):
             run.violation("a *_cm.css file was taken as an input of a directory run", case, details={"files": [k for k in r2["after"] if k.endswith("_cm_cm.css")]})
         if {k: v for k, v in outs1.items()} != outs2:
